@@ -78,10 +78,6 @@ TC2 == AllChars
 TN3 == SmallNums \cup {Dg(<<0, 0, 7>>), Dg(<<7, 1, 0, 1>>), Dg(<<4, 2, 9, 4, 9, 6, 7, 2, 9, 5>>)}
 TC3 == LowerUnits \cup {87, 121, 1633}
 TRTok == (RNumsAll \ {Dg(<<5>>)}) \cup RSeps \cup {<<120>>, <<1633>>}
-(* the model-checking run of the thorough tier steps through a smaller universe than the one replayed on the code *)
-MN2 == QN2 \cup EdgeNums
-MC2 == LowerUnits \cup UpperUnits \cup {121, 45, 178, 1633}
-MRTok == QRTok \cup {Dg(<<0, 0, 7>>), Dg(<<2, 1, 4, 7, 4, 8, 3, 6, 4, 7>>), <<1633>>}
 QRMid == {}
 TRMid == {Dg(<<0>>), Dg(<<1>>), Dg(<<2>>), Dg(<<1, 0>>)} \cup RSeps \cup {<<120>>}
 QRLong == {<<49>>, <<50>>} \cup RSeps
